@@ -26,7 +26,8 @@ FILES = [c07.fspec("ML", 40, "UPPER", pat="ramp7", load=0x3000, exec_=0x3005), c
          # a second file with the name of FILES[0] (the same program saved twice on a tape is legal)
          c07.fspec("ML", 55, "UPPER", pat="ramp", load=0x3100, exec_=0x3101),
          # headerless files whose length is a whole number of sectors (the directory's bytes-in-last-sector field is 0), and an empty one
-         c07.fspec("ASC", 512, "SECT512", "TXT", pat="ramp7"), c07.fspec("DAT", 256, "SECT256", "DAT", pat="ff"), c07.fspec("ASC", 2304, "GRAN1", "TXT", pat="55")]
+         c07.fspec("ASC", 512, "SECT512", "TXT", pat="ramp7"), c07.fspec("DAT", 256, "SECT256", "DAT", pat="ff"), c07.fspec("ASC", 2304, "GRAN1", "TXT", pat="55"),
+         c07.fspec("ML", 30, "V1.2", pat="ramp", load=0x2000, exec_=0x2001)]        # a name with a dot in it
 DUP = 7
 
 
@@ -43,7 +44,7 @@ def source_sets(tier):
     yield [0, DUP, 1]
     yield [0, 1, DUP]
     yield [1, DUP, 0]
-    for fs in ([8], [9], [10], [0, 8], [8, 9], [9, 1, 8], [10, 8, 0]):
+    for fs in ([8], [9], [10], [0, 8], [8, 9], [9, 1, 8], [10, 8, 0], [11], [0, 11], [11, 1, 5]):
         yield fs
 
 
